@@ -426,8 +426,14 @@ class Bip32Path(object):
         :return: number
         """
         if str_int[-1] in ("'", "h"):
-            return int(str_int[:-1]) + (2 ** 31)
-        return int(str_int)
+            num = int(str_int[:-1])
+            if not 0 <= num < 2 ** 31:
+                raise ValueError("hardened index out of range")
+            return num + (2 ** 31)
+        num = int(str_int)
+        if not 0 <= num < 2 ** 32:
+            raise ValueError("index out of range")
+        return num
 
     def repr_hardened(self, num: int) -> str:
         """
